@@ -80,7 +80,9 @@ where
             x: 0,
             y: 0,
             size: crop_area.size,
-            row_skip: (size.width - crop_area.size.width) as usize,
+            // A zero sized crop area can be wider than `size`, because the intersection with a zero
+            // sized rectangle keeps its non-zero dimension. No pixels are returned in this case.
+            row_skip: size.width.saturating_sub(crop_area.size.width) as usize,
         }
     }
 }
